@@ -1,10 +1,13 @@
 #!/bin/bash
-# try_patch.sh <patch file> <PROP> [PROP...] : apply a patch to /repo, run quick checks, always revert.
+# try_patch.sh <patch file> <PROP> [PROP...] : apply a patch to a scratch copy of /repo/node, run quick checks on it
+# (VP_REPO), remove the copy. /repo itself is never touched; several invocations can run in parallel.
 P=$(realpath "$1"); shift
-cd /repo && git apply "$P" || { echo "APPLY FAILED"; exit 3; }
-trap 'git -C /repo checkout -q -- . ' EXIT
+S=$(mktemp -d /tmp/tp-XXXXXX)
+trap 'rm -rf "$S"' EXIT
+rsync -a --exclude target /repo/node "$S/" || exit 3
+(cd "$S" && patch -s -p1 < "$P") || { echo "APPLY FAILED"; exit 3; }
 cd /verif
 for id in "$@"; do
-  ./check $id quick > /tmp/try_$id.out 2>&1; rc=$?
-  echo "== $id exit=$rc"; grep -E "violated:|ANALYSIS-ERROR|^OK" /tmp/try_$id.out | cut -c1-420 | head -8
+  VP_REPO=$S VP_EVIDENCE_DIR=$S/evidence ./check $id quick > $S/try_$id.out 2>&1; rc=$?
+  echo "== $id exit=$rc"; grep -E "violated:|ANALYSIS-ERROR|^OK" $S/try_$id.out | cut -c1-420 | head -8
 done
